@@ -1533,7 +1533,6 @@ impl Vm {
       return signal;
     }
 
-    #[cfg(debug_assertions)]
     let roots_before = self.gc().temp_roots();
 
     match native.environment() {
@@ -1549,7 +1548,10 @@ impl Vm {
           }
           ExecutionSignal::OkReturn
         },
-        Call::Err(LyError::Err(error)) => self.set_error(error),
+        Call::Err(LyError::Err(error)) => {
+          self.drop_roots_above(roots_before);
+          self.set_error(error)
+        },
         Call::Err(LyError::Exit(code)) => self.set_exit(code),
       },
       NativeEnvironment::Normal => {
@@ -1591,12 +1593,24 @@ impl Vm {
             }
             ExecutionSignal::OkReturn
           },
-          Call::Err(LyError::Err(error)) => self.set_error(error),
+          Call::Err(LyError::Err(error)) => {
+            self.drop_roots_above(roots_before);
+            self.set_error(error)
+          },
           Call::Err(LyError::Exit(code)) => self.set_exit(code),
         }
       },
     }
   }}
+
+  /// A native that fails leaves through `?` and does not pop the temporary roots it
+  /// or the natives below it pushed. Drop them so they do not pile up
+  fn drop_roots_above(&mut self, roots_before: usize) {
+    let roots_now = self.gc().temp_roots();
+    if roots_now > roots_before {
+      self.pop_roots(roots_now - roots_before);
+    }
+  }
 
   /// call a laythe function setting it as the new call frame
   unsafe fn call_closure(&mut self, closure: ObjRef<Closure>, arg_count: u8) -> ExecutionSignal { unsafe {
